@@ -26,8 +26,10 @@ BLOCK_PARAMS = [
     ("mgFlux", "arr"), ("pointsEdgeDpa", "arr6"), ("THcornTemp", "arr6"), ("linPowByPin", "arr"), ("pinMgFluxes", "arr2"),
     ("displacementX", "f"), ("THhotChannelCladODT", "f"), ("residence", "f"), ("axialPowerProfile", "arr"),
 ]
-ASSEM_PARAMS = [("chargeTime", "f"), ("dischargeTime", "f"), ("notes", "s"), ("multiplicity", "i"), ("powerDecay", "arr"), ("detailedNDens", "arr")]
-CORE_PARAMS = [("power", "f"), ("keff", "f"), ("beta", "f"), ("betaComponents", "arr"), ("eigenvalues", "arr"), ("maxPD", "f")]
+ASSEM_PARAMS = [("chargeTime", "f"), ("dischargeTime", "f"), ("notes", "s"), ("multiplicity", "i"), ("powerDecay", "arr"), ("detailedNDens", "arr"),
+                ("daysSinceLastMove", "fpos"), ("numMoves", "fpos"), ("maxPercentBu", "f")]
+CORE_PARAMS = [("power", "f"), ("keff", "f"), ("beta", "f"), ("betaComponents", "arr"), ("eigenvalues", "arr"), ("maxPD", "f"),
+               ("axialMesh", "arrinc"), ("referenceBlockAxialMesh", "arrinc")]
 COMP_PARAMS = [("percentBu", "f"), ("massHmBOL", "f"), ("molesHmBOL", "f"), ("puFrac", "f"), ("pinPercentBu", "arr"), ("buRate", "f")]
 LEVELS = {"block": BLOCK_PARAMS, "assem": ASSEM_PARAMS, "core": CORE_PARAMS, "comp": COMP_PARAMS}
 
@@ -37,7 +39,7 @@ LEVELS = {"block": BLOCK_PARAMS, "assem": ASSEM_PARAMS, "core": CORE_PARAMS, "co
 DERIVED_ON_LOAD = {"*": ("area", "volume"), "Core": ("maxAssemNum",),
                    "HexBlock": ("kgHM", "kgFis", "puFrac"), "CartesianBlock": ("kgHM", "kgFis", "puFrac")}
 
-OPS = ["freecoord", "param", "param", "param", "temp", "ndens", "swap", "rotate", "discharge", "fullcore", "time", "unset"]
+OPS = ["freecoord", "parammany", "bookkeeping", "param", "param", "param", "temp", "ndens", "swap", "rotate", "discharge", "fullcore", "time", "unset"]
 EXCLUDE_KNOWN = {}
 
 
@@ -102,6 +104,15 @@ def _make_value(kind, val):
 
     if kind == "f":
         return val["f"]
+    if kind == "fpos":
+        return abs(val["f"]) % 1000.0 + 1.0
+    if kind == "arrinc":
+        # strictly increasing mesh-like list (what these parameters hold)
+        acc, outv = 0.0, []
+        for x in val["arr"]:
+            acc += abs(x) % 50.0 + 0.5
+            outv.append(acc)
+        return outv
     if kind == "i":
         return val["i"]
     if kind == "s":
@@ -129,6 +140,8 @@ def _assigned(o, name):
 def apply_program(cs, r, program, out, counts, partial_nodefault=False):
     """Apply the state-change program; every op is resolved modulo the valid targets."""
     import math
+
+    import numpy as np
 
     from armi.reactor import parameters
 
@@ -168,6 +181,30 @@ def apply_program(cs, r, program, out, counts, partial_nodefault=False):
                 counts["nodefault-completed"] += 1
             o.p[name] = value
             counts["param:" + op["level"]] += 1
+        elif kind == "bookkeeping":
+            # values the loader must not re-derive: move counters of an assembly, the core's stored axial meshes
+            assems = list(r.core)
+            a = assems[op["obj"] % len(assems)]
+            a.p.daysSinceLastMove = _make_value("fpos", op["val"])
+            a.p.numMoves = float(1 + op["k"])
+            r.core.p.axialMesh = _make_value("arrinc", op["val"])
+            r.core.p.referenceBlockAxialMesh = _make_value("arrinc", op["val"])[: 1 + op["k"] % 3]
+            counts["bookkeeping"] += 1
+        elif kind == "parammany":
+            # the same array-valued parameter on several objects with DIFFERENT shapes (ragged / n-d ragged columns), others unset
+            objs = _objects(r, "block")
+            names = {pd.name for pd in objs[0].p.paramDefs}
+            table = [(n, k) for n, k in BLOCK_PARAMS if n in names and k in ("arr", "arr2")]
+            name, vk = table[op["pidx"] % len(table)]
+            n, m, flat = op["val"]["arr2"]
+            for q in range(min(len(objs), 2 + op["k"])):
+                o = objs[(op["obj"] + q * (1 + op["obj2"] % 3)) % len(objs)]
+                if vk == "arr2":
+                    rows, cols = 1 + (n + q) % 3, 1 + (m + 2 * q) % 3
+                    o.p[name] = np.array([(flat * 2)[(q + i) % 9] + i for i in range(rows * cols)]).reshape(rows, cols)
+                else:
+                    o.p[name] = np.array([(flat * 2)[(q + i) % 9] + i for i in range(1 + (n + q) % 4)])
+            counts["parammany"] += 1
         elif kind == "temp":
             comps = _objects(r, "comp")
             c = comps[op["obj"] % len(comps)]
